@@ -46,6 +46,9 @@ fn info_variants() -> Vec<(&'static str, Vec<u8>)> {
 }
 
 const TRAILERS: [&[u8]; 4] = [b"", b"i1e", b"4:info", b"d4:infoi7ee"];
+/// Values in front of the torrent dictionary: none, non-dictionaries, and decoy dictionaries that are
+/// not acceptable torrents themselves (no announce) but carry a top-level info key.
+const LEADERS: [&[u8]; 6] = [b"", b"i0e", b"4:spamle", b"d4:infod4:name5:DECOYee", b"i0ed4:infod4:name5:DECOYee", b"d4:infoi3eei5ed1:xi1ee"];
 const INFO_KEYS: [&[u8]; 2] = [b"4:info", b"04:info"];
 const V_KEYS: [&[u8]; 4] = [b"a", b"comment", b"infoo", b"z"];
 
@@ -102,7 +105,12 @@ pub fn documents(with_announce: bool) -> Vec<Doc> {
                     entries.push((b"info".to_vec(), raw, true));
                     for (oname, order) in orders(entries) {
                         for (ti, trailer) in TRAILERS.iter().enumerate() {
-                            let mut bytes = vec![b'd'];
+                          // leading values: all of them for a thinned family (they do not interact
+                          // with the sibling value shapes), none otherwise
+                          let leaders: &[&[u8]] = if combo == 0 { &LEADERS } else { &LEADERS[..1] };
+                          for (li, leader) in leaders.iter().enumerate() {
+                            let mut bytes = leader.to_vec();
+                            bytes.push(b'd');
                             for e in &order {
                                 bytes.extend_from_slice(&e.1);
                             }
@@ -111,14 +119,16 @@ pub fn documents(with_announce: bool) -> Vec<Doc> {
                             docs.push(Doc {
                                 bytes,
                                 desc: format!(
-                                    "info={} key={} order={} others=[{}] trailer#{}",
+                                    "info={} key={} order={} others=[{}] trailer#{} leader#{}",
                                     iname,
                                     String::from_utf8_lossy(ikey),
                                     oname,
                                     vdesc.join(","),
-                                    ti
+                                    ti,
+                                    li
                                 ),
                             });
+                          }
                         }
                     }
                 }
@@ -132,7 +142,9 @@ pub fn documents(with_announce: bool) -> Vec<Doc> {
 /// dictionary (the statement's definition), or None if the document has no such thing.
 pub fn reference_hash(doc: &[u8]) -> Option<[u8; 20]> {
     let vals = refb::parse_all_spanned(doc).ok()?;
-    let top = vals.iter().find(|v| matches!(v.v, refb::V::Dict(_)))?;
+    // the dictionary the client reads = the first top-level dictionary that is a torrent at all
+    // (in this alphabet: the one with an announce string; decoys have none)
+    let top = vals.iter().find(|v| v.entries.iter().any(|(k, e)| k == b"announce" && matches!(e.v, refb::V::Str(_))))?;
     let mut found = None;
     for (k, span) in &top.entries {
         if k == b"info" {
@@ -227,7 +239,7 @@ pub fn run(ctx: &Ctx) -> Outcome {
     o.set("distinct_nontrivial", json!(accepted));
     o.set("accepted", json!(accepted));
     o.set("rejected", json!(rejected));
-    o.set("rule", json!("documents = one top-level dictionary {announce, any subset of the keys a/comment/infoo/z each with one of 5 value shapes (3 of them contain a nested key spelled info), info} in 4 key orders (sorted, reversed, info first, info last) x 6 info dictionaries (canonical, reversed keys, extra keys incl. a nested info key, leading-zero string lengths, multi-file, info key inside info) x info key spelled 4:info or 04:info x 4 trailers after the dictionary; plus a thinned family without announce (must be rejected). All documents are distinct byte strings; non-trivial = accepted by Metainfo::from_bencode, for which the hash is compared."));
+    o.set("rule", json!("documents = one top-level dictionary {announce, any subset of the keys a/comment/infoo/z each with one of 5 value shapes (3 of them contain a nested key spelled info), info} in 4 key orders (sorted, reversed, info first, info last) x 6 info dictionaries (canonical, reversed keys, extra keys incl. a nested info key, leading-zero string lengths, multi-file, info key inside info) x info key spelled 4:info or 04:info x 4 trailers after the dictionary x (for one sibling-shape combination per key subset) 6 leaders in front of it: nothing, non-dictionary values, decoy dictionaries without announce but with a top-level info key; plus a thinned family without announce (must be rejected). All documents are distinct byte strings; non-trivial = accepted by Metainfo::from_bencode, for which the hash is compared."));
     if (accepted as f64) < 0.4 * docs.len() as f64 {
         ctx.machinery_error(format!("vacuity: only {} of {} documents accepted", accepted, docs.len()));
     }
